@@ -618,6 +618,18 @@ func (pc *PredCompiler) compile(env *predEnv, x ast.Expr, depth int) (*BExpr, er
 			return pc.compile(sub, body, depth+1)
 		}
 	case *ast.Ident, *ast.SelectorExpr:
+		// a boolean local with a single definition (named sub-condition) is replaced by its definition
+		if id, ok := x.(*ast.Ident); ok && env.fn != nil {
+			if v, ok := env.info.ObjectOf(id).(*types.Var); ok && v.Pkg() != nil && v.Parent() != v.Pkg().Scope() {
+				if _, bound := env.bind[v]; !bound {
+					if def := singleDef(env.fn, env.info, v); def != nil && declaredByDefine(env.fn, env.info, v) {
+						if b, err := pc.compile(env, def, depth+1); err == nil {
+							return b, nil
+						}
+					}
+				}
+			}
+		}
 		t, err := pc.term(env, x)
 		if err == nil {
 			return Atom(t), nil
